@@ -5,6 +5,9 @@
 pub struct Slot { pub resolved: bool, pub observed: bool }
 pub struct AnyVal { pub tid: int, pub slot: int, pub cid: int }    // abstract content of a type-erased box holding an Addr
 pub enum TaskSt { Held, Detached }
+pub enum Kind { Ignore, Same, Fresh }     // what a restart request does (C07): ignored / same value restarted / fresh Default value
+// what an actor task was spawned with (C07 strategy selection, C11 config pass-through, C12 capacity pass-through, C13 stream attachment)
+pub struct LoopInfo { pub slot: int, pub kind: Kind, pub stream: bool, pub timeout: Option<u64>, pub fail_on_timeout: bool, pub cap: Option<usize>, pub gid: int }
 pub struct World {
     pub lc: Lc,                        // lifecycle automaton state of the actor task under proof
     pub trace: Seq<Ev>,                // its event trace (lc is the fold of `step` over it, by construction of the stand-ins)
@@ -13,12 +16,31 @@ pub struct World {
     pub reg_acq: Map<int, AnyVal>,     // the registry as it was when the lock was last acquired
     pub locked: bool,                  // this task holds the registry lock
     pub tasks: Map<int, TaskSt>,       // runtime tasks spawned so far: handle still held / detached
+    pub task_info: Map<int, LoopInfo>, // what each spawned actor task runs
+    pub cells: Map<int, bool>,         // take-once cells holding a runtime join handle: true = still there, false = taken
 }
 pub open spec fn emits(pre: &World, post: &World, e: Ev) -> bool {
     *post == World { lc: step(pre.lc, e), trace: pre.trace.push(e), ..*pre }
 }
 pub open spec fn same_world(pre: &World, post: &World) -> bool { *post == *pre }
-
+// a blocking operation: other tasks ran meanwhile. What is local to this task (its automaton state, its trace, its private cells) is
+// unchanged; what is shared moved on by steps of other tasks: `shared_moved` is reflexive and transitive, and keeps the stable facts:
+// a resolved running slot stays resolved, tasks and slots are never forgotten, a task's spawn info and held/detached state are only
+// changed by its handle's owner, the registry is ours while we hold the lock.
+pub struct SharedSt { pub slots: Map<int, Slot>, pub registry: Map<int, AnyVal>, pub reg_acq: Map<int, AnyVal>, pub locked: bool, pub tasks: Map<int, TaskSt>, pub task_info: Map<int, LoopInfo> }
+pub open spec fn sh(w: &World) -> SharedSt { SharedSt { slots: w.slots, registry: w.registry, reg_acq: w.reg_acq, locked: w.locked, tasks: w.tasks, task_info: w.task_info } }
+pub uninterp spec fn shared_moved(a: SharedSt, b: SharedSt) -> bool;
+pub broadcast axiom fn shared_moved_refl(a: SharedSt) ensures #[trigger] shared_moved(a, a);
+pub broadcast axiom fn shared_moved_trans(a: SharedSt, b: SharedSt, c: SharedSt) requires #[trigger] shared_moved(a, b), #[trigger] shared_moved(b, c) ensures shared_moved(a, c);
+pub broadcast axiom fn shared_moved_facts(a: SharedSt, b: SharedSt) requires #[trigger] shared_moved(a, b)
+    ensures b.locked == a.locked, a.slots.dom().subset_of(b.slots.dom()), a.tasks.dom().subset_of(b.tasks.dom()),
+        forall|s: int| #![auto] a.slots.dom().contains(s) && a.slots[s].resolved ==> b.slots[s].resolved,
+        forall|t: int| #![auto] a.tasks.dom().contains(t) ==> b.tasks[t] == a.tasks[t] && b.task_info[t] == a.task_info[t],
+        a.locked ==> b.registry == a.registry && b.reg_acq == a.reg_acq;
+pub broadcast group world_axioms { shared_moved_refl, shared_moved_trans, shared_moved_facts }
+pub open spec fn others_ran(pre: &World, post: &World) -> bool {
+    post.lc == pre.lc && post.trace == pre.trace && post.cells =~= pre.cells && shared_moved(sh(pre), sh(post))
+}
 #[verifier::external_body]
 pub fn vpanic<T>() -> (r: T) ensures false { unimplemented!() }
 
